@@ -22,7 +22,7 @@ PLAN = {
 }
 DECIDING = ["parse.outcome", "strict.reject", "backend_join"]
 FLOORS = {"quick": {"parse.outcome": 500000, "strict.reject": 300, "backend_join": 8000},
-          "thorough": {"parse.outcome": 5 * 10**6, "strict.reject": 300, "backend_join": 100000}}
+          "thorough": {"parse.outcome": 5 * 10**6, "strict.reject": 300, "backend_join": 15000}}
 REQUIRED_HOOKS = ["pendulum.parse"]
 TECHNIQUE = "exception-class monitor (contract with exceptional-exit handler) on pendulum.parse over enumerated edits of every valid form, backend-agreement log join, overflow-checked extension build as integer sanitizer"
 LEVEL_TEXT = ("every observed call of pendulum.parse is classified: supported type, ValueError, or anything else (violation, keyed by "
